@@ -391,6 +391,8 @@ where
             return Ok(None);
         };
 
+        #[cfg(feature = "verif")]
+        crate::verif::point("F:read_open");
         match f(&item) {
             Ok(result) => Ok(Some(result)),
             Err(cas_error) => {
